@@ -912,7 +912,7 @@ pub fn mode_misuse(ctx: &Arc<Ctx>) {
         s.add("evaluations", seqs);
         s.add("traces_validated", seqs);
         s.add("distinct_nontrivial", seqs);
-        s.add("states", 3); // reference states: last accepted parameter vector in {initial, alpha1, alpha2}
+        if ctx.args.shard == 0 { s.add("states", 3 * envs.len() as u64); } // reference states x environments: last accepted parameter vector in {initial, alpha1, alpha2}
         s.maxes.insert("depth_completed".into(), depth as f64);
     });
 }
